@@ -323,6 +323,96 @@ def m_rotate_left(m, st, ctx, args, span):
     return UNIT
 
 
+@model("core::slice::<impl [T]>::fill")
+def m_fill(m, st, ctx, args, span):
+    d, v = args
+    if not isinstance(d, SliceRef):
+        raise Unsupported("fill on %r" % (d,))
+    base = get_path(d.base.cell.val, d.base.path)
+    ne = list(base.elems)
+    for k in range(d.start, d.start + d.n):
+        ne[k] = copy.deepcopy(v)
+    new = Arr(ne) if isinstance(base, Arr) else VecV(elems=ne, cap=base.cap)
+    d.base.cell.val = set_path(d.base.cell.val, d.base.path, new)
+    return UNIT
+
+
+@model("core::slice::<impl [T]>::copy_within")
+def m_copy_within(m, st, ctx, args, span):
+    d, rng, dest = args
+    if not isinstance(d, SliceRef) or not (isinstance(dest, Int) and dest.is_const()):
+        raise Unsupported("copy_within on %r" % (d,))
+    a, b = range_bounds(m, rng, usize(m, d.n))
+    if not (a.is_const() and b.is_const()):
+        raise Unsupported("copy_within with symbolic range")
+    a, b, t = a.cval(), b.cval(), dest.cval()
+    if not (a <= b <= d.n and t + (b - a) <= d.n):
+        return DIVERGE
+    base = get_path(d.base.cell.val, d.base.path)
+    ne = list(base.elems)
+    win = ne[d.start + a:d.start + b]
+    ne[d.start + t:d.start + t + len(win)] = win
+    new = Arr(ne) if isinstance(base, Arr) else VecV(elems=ne, cap=base.cap)
+    d.base.cell.val = set_path(d.base.cell.val, d.base.path, new)
+    return UNIT
+
+
+@model("core::slice::<impl [T]>::chunks_exact_mut", "core::slice::<impl [T]>::chunks_exact", "core::slice::<impl [T]>::chunks_mut",
+       "core::slice::<impl [T]>::chunks")
+def m_chunks(m, st, ctx, args, span):
+    d, n = args
+    if isinstance(d, Ref):
+        t = deref(d)
+        d = SliceRef(d, 0, len(t.elems), d.mut)
+    if not isinstance(d, SliceRef) or not (isinstance(n, Int) and n.is_const() and n.cval() > 0):
+        raise Unsupported("chunks on %r" % (d,))
+    exact = "exact" in ctx.name
+    return IterV("chunks", d, 0, (n.cval(), exact))
+
+
+@model("std::iter::Iterator::zip")
+def m_zip(m, st, ctx, args, span):
+    a, b = args
+    if isinstance(b, Arr):
+        c = Cell(b, name="zip")
+        b = IterV("array", SliceRef(Ref(c), 0, len(b.elems)), 0)
+    elif isinstance(b, SliceRef):
+        b = IterV("slice_mut" if b.mut else "slice", b, 0)
+    elif isinstance(b, Ref) and isinstance(deref(b), Arr):
+        b = IterV("slice_mut" if b.mut else "slice", SliceRef(b, 0, len(deref(b).elems), b.mut), 0)
+    if not (isinstance(a, IterV) and isinstance(b, IterV)):
+        raise Unsupported("zip of %r and %r" % (a, b))
+    return IterV("zip", a, b)
+
+
+@model("std::ptr::const_ptr::<impl *const T>::cast_mut", "std::ptr::mut_ptr::<impl *mut T>::cast_const", "std::ptr::const_ptr::<impl *const T>::cast",
+       "std::ptr::mut_ptr::<impl *mut T>::cast")
+def m_ptr_cast(m, st, ctx, args, span):
+    return args[0]
+
+
+@model("__shim::generic_const")
+def m_shim_generic_const(m, st, ctx, args, span):
+    k = args[0].cval()
+    consts = [g[1] for g in ctx.fr.gmap.get("__gargs", []) if g[0] == "const"]
+    if k < len(consts) and isinstance(consts[k], int):
+        return usize(m, consts[k])
+    raise Unsupported("generic constant #%d of the shim is not a known integer" % k)
+
+
+@model("__shim::arr_new")
+def m_shim_arr_new(m, st, ctx, args, span):
+    return Arr([])
+
+
+@model("__shim::arr_push")
+def m_shim_arr_push(m, st, ctx, args, span):
+    r, v = args
+    a = deref(r)
+    store(r, Arr(a.elems + [v]))
+    return UNIT
+
+
 @model("core::slice::<impl [T]>::iter")
 def m_slice_iter(m, st, ctx, args, span):
     s = args[0]
@@ -386,6 +476,23 @@ def iter_next(m, it_ref):
             if it.kind == "array":
                 return some(get_path(r.cell.val, r.path))
             return some(r)
+        if it.kind == "chunks":
+            sl, pos, (n, exact) = it.a, it.b, it.c
+            if pos >= sl.n or (exact and pos + n > sl.n):
+                return none()
+            ln = min(n, sl.n - pos)
+            store(it_ref, IterV("chunks", sl, pos + ln, (n, exact)))
+            return some(SliceRef(sl.base, sl.start + pos, ln, sl.mut))
+        if it.kind == "zip":
+            ca, cb = Cell(it.a), Cell(it.b)
+            na = iter_next(m, Ref(ca, (), True))
+            if na.variant == 0:
+                return none()
+            nb = iter_next(m, Ref(cb, (), True))
+            if nb.variant == 0:
+                return none()
+            store(it_ref, IterV("zip", ca.val, cb.val))
+            return some(Tup([na.fields[0], nb.fields[0]]))
         if it.kind == "enumerate":
             inner_cell = Cell(it.a)
             nxt = iter_next(m, Ref(inner_cell, (), True))
@@ -409,7 +516,10 @@ def iter_next(m, it_ref):
 @model("<std::iter::Enumerate<I> as std::iter::Iterator>::next", "<std::slice::Iter<'a, T> as std::iter::Iterator>::next",
        "<std::slice::IterMut<'a, T> as std::iter::Iterator>::next",
        "std::iter::range::<impl std::iter::Iterator for std::ops::Range<A>>::next",
-       "<std::array::IntoIter<T, N> as std::iter::Iterator>::next", "__shim::next")
+       "<std::array::IntoIter<T, N> as std::iter::Iterator>::next", "__shim::next",
+       "<std::iter::Zip<A, B> as std::iter::Iterator>::next", "<std::slice::ChunksExactMut<'a, T> as std::iter::Iterator>::next",
+       "<std::slice::ChunksExact<'a, T> as std::iter::Iterator>::next", "<std::slice::ChunksMut<'a, T> as std::iter::Iterator>::next",
+       "<std::slice::Chunks<'a, T> as std::iter::Iterator>::next")
 def m_iter_next(m, st, ctx, args, span):
     return iter_next(m, args[0])
 
@@ -509,6 +619,48 @@ def m_range_contains(m, st, ctx, args, span):
     if isinstance(r, Adt) and isinstance(item, Int):
         return _contains(m, r.fields[0], r.fields[1], item, False)
     raise Unsupported("Range::contains(%r, %r)" % (r, item))
+
+
+def _try_from(m, st, ctx, args, span):
+    import re
+    mt = re.search(r"TryFrom<(\w+)> for (\w+)>::try_from", ctx.name)
+    a = args[0]
+    if not mt or not isinstance(a, Int):
+        raise Unsupported("try_from " + ctx.name)
+    tgt = mt.group(2)
+    ii = int_info({"k": "int" if tgt[0] == "i" else "uint", "name": tgt}, m.ptr_bits)
+    if ii is None:
+        raise Unsupported("try_from target " + tgt)
+    tw, ts = ii
+    lo = -(1 << (tw - 1)) if ts else 0
+    hi = (1 << (tw - 1)) - 1 if ts else (1 << tw) - 1
+    okv = Adt("std::result::Result", 0, "Ok", [int_cast(a, tw, ts)], ["0"])
+    errv = Adt("std::result::Result", 1, "Err", [Opaque(E("try_from_error", ()))], ["0"])
+    if a.is_const():
+        v = a.sval() if a.signed else a.cval()
+        return okv if lo <= v <= hi else errv
+    pre = "s" if a.signed else "u"
+    conds = []
+    if a.signed:
+        amin = -(1 << (a.w - 1))
+        if lo > amin:
+            conds.append(cmpop("sge", a.e, const(lo, a.w)))
+        if hi < (1 << (a.w - 1)) - 1:
+            conds.append(cmpop("sle", a.e, const(hi, a.w)))
+    else:
+        if hi < (1 << a.w) - 1:
+            conds.append(cmpop("ule", a.e, const(hi, a.w)))
+    if not conds:
+        return okv
+    c = conds[0] if len(conds) == 1 else E("and", (conds[0], conds[1]), 1)
+    return Fork(c, [(1, okv), (0, errv)])
+
+
+for _src in ("isize", "i64", "i128", "usize", "u64", "i32", "u32"):
+    for _dst in ("i32", "u32", "i16", "u16", "i8", "u8", "i64", "u64", "isize", "usize"):
+        if _src != _dst:
+            MODELS["std::convert::num::ptr_try_from_impls::<impl std::convert::TryFrom<%s> for %s>::try_from" % (_src, _dst)] = _try_from
+            MODELS["std::convert::num::<impl std::convert::TryFrom<%s> for %s>::try_from" % (_src, _dst)] = _try_from
 
 
 # ------------------------------------------------------------------------------------------------ pointers
@@ -793,6 +945,39 @@ def _mk_fold_shim():
             "locals": [{"ty": _ANY} for _ in range(10)], "debug": [], "blocks": blocks}
 
 
+def _mk_from_fn_shim():
+    # fn from_fn<T, N, F>(f) -> [T; N] { let mut arr = []; let mut i = 0; while i < N { arr.push(f(i)); i += 1 } arr }
+    # locals: 0 ret(arr) 1 f 2 i 3 n 4 cond 5 &mut f 6 args 7 v 8 &mut arr 9 unit
+    U = {"s": "usize", "k": "uint", "name": "usize"}
+    def cst(v):
+        return {"k": "const", "ty": U, "val": {"k": "int", "bits": str(v), "size": 8}, "s": str(v)}
+    blocks = [
+        {"cleanup": False, "stmts": [{"k": "assign", "place": _pl(2), "rv": {"k": "use", "op": cst(0)}, "span": None}],
+         "term": {"k": "call", "callee": _callee("__shim::arr_new"), "args": [], "dest": _pl(0), "target": 1, "unwind": "continue", "span": None}},
+        {"cleanup": False, "stmts": [],
+         "term": {"k": "call", "callee": _callee("__shim::generic_const"), "args": [cst(0)], "dest": _pl(3), "target": 2, "unwind": "continue", "span": None}},
+        {"cleanup": False, "stmts": [{"k": "assign", "place": _pl(4), "rv": {"k": "binop", "op": "Lt", "a": _copy(2), "b": _copy(3)}, "span": None}],
+         "term": {"k": "switch", "discr": _move(4), "discr_ty": _ANY, "arms": [["0", 5]], "otherwise": 3}},
+        {"cleanup": False, "stmts": [
+            {"k": "assign", "place": _pl(6), "rv": {"k": "aggregate", "kind": {"k": "tuple"}, "ops": [_copy(2)]}, "span": None},
+            {"k": "assign", "place": _pl(5), "rv": {"k": "ref", "mut": True, "place": _pl(1)}, "span": None}],
+         "term": {"k": "call", "callee": _callee("std::ops::FnMut::call_mut"), "args": [_move(5), _move(6)], "dest": _pl(7), "target": 4, "unwind": "continue", "span": None}},
+        {"cleanup": False, "stmts": [
+            {"k": "assign", "place": _pl(8), "rv": {"k": "ref", "mut": True, "place": _pl(0)}, "span": None},
+            {"k": "assign", "place": _pl(2), "rv": {"k": "binop", "op": "Add", "a": _copy(2), "b": cst(1)}, "span": None}],
+         "term": {"k": "call", "callee": _callee("__shim::arr_push"), "args": [_move(8), _move(7)], "dest": _pl(9), "target": 2, "unwind": "continue", "span": None}},
+        {"cleanup": False, "stmts": [], "term": {"k": "return"}},
+    ]
+    locs = [{"ty": _ANY} for _ in range(10)]
+    locs[2] = {"ty": U}
+    locs[3] = {"ty": U}
+    locs[4] = {"ty": {"s": "bool", "k": "bool"}}
+    return {"path": "__shim::from_fn", "promoted": None, "def_kind": "Fn", "span": {"file": "<shim>", "line": 0}, "arg_count": 1,
+            "locals": locs, "debug": [], "blocks": blocks}
+
+
+SHIMS["__shim::from_fn"] = _mk_from_fn_shim()
+SHIMS["std::array::from_fn"] = SHIMS["__shim::from_fn"]
 SHIMS["__shim::fold"] = _mk_fold_shim()
 for _n in ("<std::iter::Enumerate<I> as std::iter::Iterator>::fold", "std::iter::Iterator::fold",
            "<std::slice::Iter<'a, T> as std::iter::Iterator>::fold"):
